@@ -14,6 +14,8 @@ FUNCS = {
     "include/sodium/private/ed25519_ref10_fe_51.h": ["fe25519_0", "fe25519_1", "fe25519_add", "fe25519_sub", "fe25519_neg", "fe25519_cmov", "fe25519_cswap", "fe25519_copy",
                                                      "fe25519_isnegative", "fe25519_iszero", "fe25519_mul", "fe25519_sq", "fe25519_sq2", "fe25519_mul32"],
     "crypto_core/ed25519/ref10/fe_51/fe.h": ["fe25519_frombytes", "fe25519_reduce", "fe25519_tobytes"],
+    "include/sodium/private/ed25519_ref10_fe_25_5.h": ["fe25519_0", "fe25519_1", "fe25519_add", "fe25519_sub", "fe25519_neg", "fe25519_cmov", "fe25519_cswap", "fe25519_copy", "fe25519_isnegative", "fe25519_iszero"],
+    "crypto_core/ed25519/ref10/fe_25_5/fe.h": ["fe25519_reduce", "fe25519_tobytes"],
     "crypto_core/ed25519/ref10/ed25519_ref10.c": ["fe25519_invert", "fe25519_pow22523",
         "ge25519_p1p1_to_p2", "ge25519_p1p1_to_p3", "ge25519_p2_to_p3", "ge25519_p3_to_p2", "ge25519_p3_to_cached", "ge25519_p3_to_precomp",
         "ge25519_p2_0", "ge25519_p3_0", "ge25519_cached_0", "ge25519_precomp_0", "ge25519_p2_dbl", "ge25519_p3_dbl", "ge25519_add_cached", "ge25519_sub_cached",
@@ -83,7 +85,7 @@ def changed(repo, prop=None):
     res = []
     for k, v in pins.items():
         fn = k.split(":")[1]
-        owner = fn[1:] if fn.startswith("*") else next((o for pre, o in OWNER.items() if fn.startswith(pre)), None)
+        owner = fn[1:] if fn.startswith("*") else ("C10" if "fe_25_5" in k else next((o for pre, o in OWNER.items() if fn.startswith(pre)), None))
         if prop and owner != prop:
             continue
         if cur.get(k) != v:
